@@ -114,6 +114,8 @@ theorem C17_wf_noSerialization {l : Level} {p : OType} (hok : TypeOK (l :: p)) (
     proper override of an inherited attribute; equality names are (own or inherited) attributes that are not constants and not already part of
     an inherited equality; serialization names are attributes with a position, required never after optional -/
 structure WellFormedDef (env : List OType) (d : Def) : Prop where
+  /-- no type parameter re-declares an inherited one (trivially true of a definition without `type_parameters`) -/
+  params : d.params.any (fun q => (typeParams (parentOf env d)).any (fun r => r.1 == q.1)) = false
   noBoth : d.constants.any (fun c => d.attrs.any (fun a => a.name == c.1)) = false
   attrs : ∀ a ∈ d.decls (parentOf env d), AttrDeclOK a
   override : ∀ a ∈ d.decls (parentOf env d), OverrideOK (parentOf env d) a
@@ -138,7 +140,7 @@ theorem C17_schema_partial {env : List OType} {d : Def} (h : WellFormedDef env d
       rw [hs]
       exact checkSerialization_succeeds h1 (fun hb => by cases hb) h2 h3 (by simp)
   unfold define
-  simp only [h.noBoth, Bool.false_eq_true, if_false, has, heq, hser]
+  simp only [h.params, h.noBoth, Bool.false_eq_true, if_false, has, heq, hser]
   exact ⟨_, rfl⟩
 
 /-! ### … and its init-hash is an instance of the declared schema `TypeObjectInitHash` (regenerated table) -/
@@ -149,29 +151,33 @@ theorem C17_schema_table_ok : schemaOKb Pcore.Generated.objectSchema = true := b
 
 /-- every name of the definition matches MemberNamePattern (what the driver's universe guarantees: `nameOf`) -/
 structure DefNamesValid (d : Def) : Prop where
+  params : ∀ q ∈ d.params, memberName q.1 = true
   attrs : ∀ a ∈ d.attrs, memberName a.name = true
   constants : ∀ c ∈ d.constants, memberName c.1 = true
   equality : ∀ n ∈ d.equality.toList?.getD [], memberName n = true
   serialization : ∀ ser, d.serialization = some ser → ∀ n ∈ ser, memberName n = true
 
-theorem keys_nodup : ∀ b1 b2 b3 b4 b5 b6 b7 : Bool,
-    ((if b1 then ["name"] else []) ++ (if b2 then ["parent"] else []) ++ (if b3 then ["attributes"] else []) ++
+theorem keys_nodup : ∀ b1 b2 b8 b3 b4 b5 b6 b7 : Bool,
+    ((if b1 then ["name"] else []) ++ (if b2 then ["parent"] else []) ++
+     (if b8 then ["type_parameters"] else []) ++ (if b3 then ["attributes"] else []) ++
      (if b7 then ["constants"] else []) ++
      (if b4 then ["equality"] else []) ++ (if b5 then ["equality_include_type"] else []) ++
      (if b6 then ["serialization"] else [])).Nodup := by
-  intro b1 b2 b3 b4 b5 b6 b7
-  cases b1 <;> cases b2 <;> cases b3 <;> cases b4 <;> cases b5 <;> cases b6 <;> cases b7 <;> decide
+  intro b1 b2 b8 b3 b4 b5 b6 b7
+  cases b1 <;> cases b2 <;> cases b8 <;> cases b3 <;> cases b4 <;> cases b5 <;> cases b6 <;> cases b7 <;> decide
 
 theorem defHash_keys (name : Option String) (pk : Bool) (d : Def) :
     (defHash name pk d).map (·.1) =
       (if name.isSome then ["name"] else []) ++ (if pk then ["parent"] else []) ++
+      (if !d.params.isEmpty then ["type_parameters"] else []) ++
       (if !d.attrs.isEmpty then ["attributes"] else []) ++
       (if !d.constants.isEmpty then ["constants"] else []) ++
       (if d.equality != .absent then ["equality"] else []) ++
       (if d.includeType.isSome then ["equality_include_type"] else []) ++
       (if d.serialization.isSome then ["serialization"] else []) := by
   unfold defHash
-  cases name <;> cases pk <;> cases d.attrs.isEmpty <;> cases d.constants.isEmpty <;> cases d.equality <;>
+  cases name <;> cases pk <;> cases d.params.isEmpty <;> cases d.attrs.isEmpty <;> cases d.constants.isEmpty <;>
+    cases d.equality <;>
     cases d.includeType <;> cases d.serialization <;> rfl
 
 /-- for ANY member table satisfying the side condition, the init-hash of every definition of the universe — as parsed
@@ -182,13 +188,13 @@ theorem C17_schema_admits (s : Schema) (hs : schemaOKb s = true) (d : Def) (hd :
     structInst s.members (defHash name pk d) = true := by
   unfold schemaOKb at hs
   simp only [Bool.and_eq_true, decide_eq_true_eq, List.all_eq_true, beq_iff_eq] at hs
-  obtain ⟨⟨⟨⟨⟨⟨⟨⟨⟨⟨hnd, hopt⟩, h1⟩, h2⟩, h3⟩, h7⟩, h4⟩, h5⟩, h6⟩, _⟩, _⟩ := hs
+  obtain ⟨⟨⟨⟨⟨⟨⟨⟨⟨⟨⟨hnd, hopt⟩, h1⟩, h2⟩, h8⟩, h3⟩, h7⟩, h4⟩, h5⟩, h6⟩, _⟩, _⟩ := hs
   apply structInst_of hnd hopt
-  · rw [defHash_keys]; exact keys_nodup _ _ _ _ _ _ _
+  · rw [defHash_keys]; exact keys_nodup _ _ _ _ _ _ _ _
   · intro e he
     unfold defHash at he
     simp only [List.mem_append] at he
-    rcases he with (((((he | he) | he) | he) | he) | he) | he
+    rcases he with ((((((he | he) | he) | he) | he) | he) | he) | he
     · cases name with
       | none => simp at he
       | some n =>
@@ -201,6 +207,15 @@ theorem C17_schema_admits (s : Schema) (hs : schemaOKb s = true) (d : Def) (hd :
         simp at he; subst he
         obtain ⟨m, hm, hmn, hmt⟩ := memberTy_mem h2
         exact ⟨m, hm, hmn, by rw [hmt]; rfl⟩
+    · by_cases hemp : d.params.isEmpty = true
+      · simp [hemp] at he
+      · simp [hemp] at he; subst he
+        obtain ⟨m, hm, hmn, hmt⟩ := memberTy_mem h8
+        refine ⟨m, hm, hmn, ?_⟩
+        rw [hmt]
+        simp only [sinst, List.all_eq_true, List.mem_map]
+        rintro n ⟨q, hq, rfl⟩
+        exact hd.params q hq
     · by_cases hemp : d.attrs.isEmpty = true
       · simp [hemp] at he
       · simp [hemp] at he; subst he
@@ -697,7 +712,7 @@ theorem tyEqDeep_length {t o : OType} (h : tyEqDeep t o = true) : t.length = o.l
     | nil => simp [tyEqDeep] at h
     | cons l' p' =>
       simp only [tyEqDeep, Bool.and_eq_true] at h
-      simp [ih h.1.1.1.2]
+      simp [ih h.1.1.1.1.2]
 
 theorem tyEq_length {t o : OType} (h : tyEq t o = true) : t.length = o.length := by
   unfold tyEq at h
@@ -781,7 +796,7 @@ theorem C17_type_inithash_same {env : List OType} {d : Def} {l : Level} {p : OTy
       get { typ := l :: p, values := vs } n) ∧
     (∀ vs, initHash { typ := { l with attrs := reorder l.attrs } :: p, values := vs } =
       initHash { typ := l :: p, values := vs }) := by
-  obtain ⟨hboth, attrs, hattrs, -, -, ht⟩ := define_parts h
+  obtain ⟨-, hboth, attrs, hattrs, -, -, ht⟩ := define_parts h
   have hla : l.attrs = attrs := by rw [(List.cons.inj ht).1]
   have hnd : (l.attrs.map (·.name)).Nodup := by
     rw [hla, (defineAttrs_ok hattrs).1]; exact decls_nodup hd.names hd.constNames hboth
@@ -926,7 +941,7 @@ example : WellFormedDef [] (sampleDefs.headD default) := by
   have hdecls : (sampleDefs.headD default).decls (parentOf [] (sampleDefs.headD default)) =
       [{ name := "a", ty := .int, kind := .normal, dflt := none },
        { name := "k", ty := .int, kind := .constant, dflt := some (.int 7) }] := rfl
-  refine ⟨rfl, ?_, ?_, ?_, ?_⟩
+  refine ⟨rfl, rfl, ?_, ?_, ?_, ?_⟩
   · intro a ha
     rw [hdecls] at ha
     simp only [List.mem_cons, List.not_mem_nil, or_false] at ha
